@@ -150,21 +150,41 @@ func ranTerm(r []peer.Exchange) string {
 func srvScriptTerm(s peer.SrvScript) string {
 	var rs []string
 	for _, r := range s.Replies {
-		rs = append(rs, fmt.Sprintf("(mkReply %s %s %s)", core.Z(r.Bit), core.Bool(r.Ack), core.Bool(r.HasKeyOK)))
+		// how the selected method's exchange ends against this scripted peer: it serves
+		// CLAIMTOBE (acknowledging or rejecting the claim) and goes away on anything else
+		res := "XAbort"
+		if r.Bit == 2 {
+			res = "XFail"
+			if r.Ack {
+				res = "XOk"
+			}
+		}
+		rs = append(rs, fmt.Sprintf("(mkReply %s %s %s)", core.Z(r.Bit), res, core.Bool(r.HasKeyOK)))
 	}
 	return fmt.Sprintf("(mkS %s %s %s %s %s %s %s %s %s %s %s)", rcTerm(s.RC), sstrTerm(s.Auth), sstrTerm(s.Enc),
 		methList(split(s.List)), methList(split(s.Single)), ciphList(split(s.CList)), ciphList(split(s.CSingle)),
 		keyTerm(s.Key), core.List(rs), postTerm(s.Post), rcTerm(s.PostRC))
 }
-func cliScriptTerm(s peer.CliScript) string {
+func cliScriptTerm(s peer.CliScript, own []string) string {
 	var ms []string
 	for _, m := range s.Masks {
-		cl := "ClaimAbort"
-		switch m.Claim {
-		case "ok":
-			cl = "ClaimOk"
-		case "fail":
-			cl = "ClaimFail"
+		// how the exchange of the method the server selects ends against this scripted
+		// peer: it speaks CLAIMTOBE only and goes away on any other selection
+		cl := "XAbort"
+		sel := ""
+		for _, o := range own {
+			if bitOf(o)&m.Mask != 0 {
+				sel = o
+				break
+			}
+		}
+		if sel == "CLAIMTOBE" {
+			switch m.Claim {
+			case "ok":
+				cl = "XOk"
+			case "fail":
+				cl = "XFail"
+			}
 		}
 		ms = append(ms, fmt.Sprintf("(mkM %s %s)", core.Z(m.Mask), cl))
 	}
@@ -323,7 +343,7 @@ func caseTerm(sp spec, o obs) string {
 	if sp.Kind == "cli" {
 		return fmt.Sprintf("(CCli %s %s %s)", cfgTerm(sp.Cfg), srvScriptTerm(*sp.Srv), tail)
 	}
-	return fmt.Sprintf("(CSrv %s %s %s)", cfgTerm(sp.Cfg), cliScriptTerm(*sp.Cli), tail)
+	return fmt.Sprintf("(CSrv %s %s %s)", cfgTerm(sp.Cfg), cliScriptTerm(*sp.Cli, sp.Cfg.Methods), tail)
 }
 
 // ---------- generation --------------------------------------------------------
